@@ -183,6 +183,7 @@ type c18Exec struct {
 	needles []c18Needle
 	marks   map[uint64]int64
 	mu      sync.Mutex
+	callMu  sync.Mutex // guards res while two API requests are in flight
 	// store fault
 	armed    bool
 	failAt   int
@@ -246,6 +247,8 @@ func (x *c18Exec) callRaw(t string, body []byte) sysboot.Response {
 	x.s.log(sevt{Kind: "api", API: t + " call"})
 	r := x.s.postRaw(http.MethodPost, body)
 	x.s.log(sevt{Kind: "api", API: t + " reply", Code: r.Code, Note: r.Message})
+	x.callMu.Lock()
+	defer x.callMu.Unlock()
 	x.res.responses++
 	if (t == "get" || t == "list") && len(r.Raw) > 0 {
 		x.res.getList++
@@ -395,12 +398,30 @@ func (x *c18Exec) followUp(id string) {
 		return
 	}
 	x.call("position", map[string]any{"task_id": id})
-	x.call("pause", map[string]any{"task_id": id})
+	// two requests in flight at the same time: both pass the in-memory check, the loser is refused by the state
+	// guard of the store (an error path of its own)
+	x.both("pause", id)
 	x.look(id)
-	x.call("resume", map[string]any{"task_id": id})
+	x.both("resume", id)
 	x.look(id)
 	x.call("delete", map[string]any{"task_id": id})
 	x.look(id)
+}
+
+func (x *c18Exec) both(t, id string) {
+	var wg sync.WaitGroup
+	codes := make([]int, 2)
+	for i := 0; i < 2; i++ {
+		wg.Add(1)
+		go func(i int) {
+			defer wg.Done()
+			codes[i] = x.call(t, map[string]any{"task_id": id}).Code
+		}(i)
+	}
+	wg.Wait()
+	if (codes[0] == 200) != (codes[1] == 200) {
+		x.site("concurrent-" + t + "/one-refused")
+	}
 }
 
 var c18PCh = []string{"by-dev-rootcoord-dml_0", "by-dev-rootcoord-dml_1"}
